@@ -9,6 +9,7 @@ transitiontable.go/acttab.go): by the extracted checker and by the Coq kernel (v
 Tie K: LexGen.lexgen (Gallina model of gocc's lexer generator, proved correct for every grammar) = gocc's DFA, structurally, per grammar.
 Tie K: compiled lexers vs the definitional tokenizer (derivatives of the rules, not gocc's DFA) on the input streams."""
 import collections
+import sys
 import hashlib
 import os
 import re
@@ -125,7 +126,11 @@ def kernel_check(batch):
         f.write("From Coq Require Import List ZArith Bool.\nFrom Gocc Require Import Lex.Scan Lex.Pattern Lex.Deriv Lex.Bisim.\nImport ListNotations.\n")
         for n, t in batch:
             f.write(t)
+    import time
+    t0 = time.time()
     p = subprocess.run(["coqc", "-Q", os.path.join(vlib.COQ, "theories"), "Gocc", path], capture_output=True, text=True, cwd=work, timeout=1200)
+    if os.environ.get("VERIF_DEBUG"):
+        print("kernel_check %s %.1fs" % ([n for n, _ in batch], time.time() - t0), file=sys.stderr)
     res = {m.group(1): m.group(2) == "true" for m in re.finditer(r"r_(\w+) = (true|false)", p.stdout)}
     for ext in (".v", ".vo", ".glob", ".vok", ".vos"):
         try:
@@ -148,6 +153,9 @@ def run(ctx):
     hist = collections.Counter()
     samples = []
     kernel_batch = []
+    import concurrent.futures
+    kex = concurrent.futures.ThreadPoolExecutor(10)     # kernel evaluations run while the correspondence runs go on
+    kfut = []
     lexgen_hist = collections.Counter()
     for r in recs:
         dump, differ = lexdump(ctx, r.dir)
@@ -160,8 +168,9 @@ def run(ctx):
             ctx.add_obligation("K: LexGen.lexgen (verified model of gocc's lexer generator) = gocc's DFA for %s (item sets and emitted tables: "
                                "numbering, classes, targets, accept codes)" % r.name, lg.startswith("EQUAL"), lg[:200])
             lexgen_hist[lg.split(" ")[0] if lg else "NO-OUTPUT"] += 1
-        if ok and len(kernel_batch) < (40 if not thorough else 120):
-            kernel_batch.append((r.name, coq_of_dump(r.name, open(dump).read(), r.rows, r.acts)))
+        if ok and len(kernel_batch) < (40 if not thorough else 120) and len(r.rows) <= (60 if not thorough else 200):
+            kernel_batch.append((r.name, None))
+            kfut.append(kex.submit(kernel_check, [(r.name, coq_of_dump(r.name, open(dump).read(), r.rows, r.acts))]))
         hist[verdict.split(" ")[0]] += 1
         if not dump:
             continue
@@ -196,15 +205,12 @@ def run(ctx):
             samples.append({"grammar": r.g.text(), "input": repr(inputs[0]), "tokens": go[0][:200], "bisim": verdict[:80]})
     # kernel-evaluated sample
     if kernel_batch:
-        # all of them, in parallel shards (one coqc per shard)
-        import concurrent.futures
-        nsh = min(10, len(kernel_batch))
-        shards = [kernel_batch[i::nsh] for i in range(nsh)]
         res, err = {}, ""
-        with concurrent.futures.ThreadPoolExecutor(nsh) as ex:
-            for (r1, e1) in ex.map(kernel_check, shards):
-                res.update(r1)
-                err = err or e1
+        for f in kfut:
+            (r1, e1) = f.result()
+            res.update(r1)
+            err = err or e1
+        kex.shutdown()
         for n, _ in kernel_batch:
             ctx.add_obligation("R: bisim_check(emitted DFA of %s, lexical rules) = true by vm_compute (Coq kernel)" % n, res.get(n, False), err)
     # regression: regular definitions are macros (defect D4, repaired)
@@ -236,9 +242,9 @@ def run(ctx):
                 "3 incl. nullable bodies, ranges over the whole Unicode range, '.', syntax-part string literals colliding with named tokens) x "
                 "inputs (walks through the DFA, random over the alphabet, malformed UTF-8); non-trivial = input longer than 3 bytes; distinct "
                 "by (grammar, input)",
-        "samples": samples, "programs": len(recs), "bisim_verdicts": dict(hist), "lexgen_model_vs_gocc": dict(lexgen_hist),
+        "samples": samples, "programs": len(recs), "bisim_verdicts": dict(hist), "lexgen_model_vs_gocc": dict(lexgen_hist), "kernel_evaluated_bisimulations": len(kernel_batch),
         "traces_validated_against_impl": total, "disagreements": disagreements,
         "gocc_stats": {k: v for k, v in stats.items() if k != "build_log"},
     }, ["the three witnesses of the repaired regular-definition defect (D4) run on every check as regression cases",
         "imports (external rune predicates) are unreachable from the grammar and outside the model",
-        "the derivative tokenizer and the checker are extracted (ExtrOcamlBasic); every bisimulation obligation is re-evaluated by the kernel (quick: all 40 grammars; thorough: 120)"])
+        "the derivative tokenizer and the checker are extracted (ExtrOcamlBasic); the bisimulation obligations of DFAs with at most 60 states (thorough: 200 states, at most 120 grammars) are re-evaluated by the kernel"])
